@@ -98,8 +98,31 @@ theorem demo_tables_net :
       netIcLine demoNet demoNames demoPinIdx q.1 q.2.1 q.2.2.1 q.2.2.2 == demoIc q.1 q.2.1 q.2.2.1 q.2.2.2) = true := by
   decide +kernel
 
+/-- the demo file has a top-level block: `interconnects` answers (the real call does not raise) -/
+theorem demo_ic_isSome : (interconnects demoIc (parse .merge demoB)).isSome = true := by decide +kernel
+
+/-- the INTERCONNECT array of the demo: the answer of `interconnects`, taken out with the proof that there is one -/
+def demoIcArr : Arr := (interconnects demoIc (parse .merge demoB)).get demo_ic_isSome
+
+theorem demo_ic : interconnects demoIc (parse .merge demoB) = some demoIcArr := (Option.some_get demo_ic_isSome).symm
+
+/-- the delay table of the run with data set `d` -/
+def demoDelayD (d : Nat) : Nat → Bool → Bool → Int := sumDelay demoPins (parse .merge demoB) demoIcArr d
+
 /-- the delay table of the run with data set 0 -/
-def demoDelay : Nat → Bool → Bool → Int := sdfDelay demoPins demoIc (parse .merge demoB) 0
+def demoDelay : Nat → Bool → Bool → Int := demoDelayD 0
+
+/-- `sdfDelay` / `sdfCfg` of the demo are defined (not `none`) and are these tables -/
+theorem demo_sdfDelay (d : Nat) : sdfDelay demoPins demoIc (parse .merge demoB) d = some (demoDelayD d) := by
+  unfold sdfDelay
+  rw [demo_ic]
+  rfl
+
+theorem demo_cfg (d : Nat) (cap : Nat → Nat) :
+    sdfCfg demoPins demoIc (parse .merge demoB) d cap = some ⟨demoDelayD d, cap⟩ := by
+  unfold sdfCfg
+  rw [demo_sdfDelay]
+  rfl
 
 /-- the whole table, lines 0 … 10 (rows `[d00, d01, d10, d11]`): the IOPATH / INTERCONNECT values of data set 0 on the lines
 named in the header, 0 on the lines from a driver to its signal fork; `(posedge A2)` fills input polarity 0 only -/
@@ -144,7 +167,7 @@ theorem demo_env_cases (P : Nat → Wv → Prop) (h14 : P 14 ⟨[T.fin 1000], T.
         rw [this]; exact hrest l e14 e15
 
 theorem demoDelay_nonneg : ∀ l a b, 0 ≤ demoDelay l a b :=
-  sdfDelay_nonneg .merge demoPins demoIc demoB demoB_ok.2.2 0
+  sdfDelay_nonneg .merge demoPins demoIc demoB demoB_ok.2.2 0 demoDelay (demo_sdfDelay 0)
 
 /-- a propagation of the demo: the deterministic evaluator in program order, arbitrary left-overs behind the terminators -/
 theorem demo_propagated (junk : Int → Nat → Wv → (Int → T) → Int → T) :
